@@ -3,6 +3,7 @@ Same model (Model/Devs.v), driver and oracle as C14 (devs_common.py); the genera
 import itertools
 import random
 
+from props import C14 as _C14s
 from props import devs_common as D
 from props.devs_common import coq_case, nontrivial, op_kinds, run_impl  # noqa: F401  (module API)
 
@@ -34,6 +35,30 @@ def _add_running(rng, case):
     if evs and rng.random() < 0.5:
         rng.choice(evs)[7].insert(0, ["running", False])
     return case
+
+
+def _long_run_case(rng, cls, T, nomodel=False):
+    """thousands of ticks: [0,T] cut into a few long pieces (each below the model's fuel) with run_next_event in between; a handful of
+    events far apart; replayed in one piece.  For ABMSimulator steps = clock must hold after every piece."""
+    unit = S
+    ops = []
+    for j in range(rng.randint(2, 5)):
+        ops.append(["sched", "abs", rng.randint(1, T) * unit, False, rng.choice("HDL"), j + 1, 0,
+                    [["sched", "rel", rng.randint(0, 300) * unit, False, "D", 50 + j, 0, []]]])
+    at = 0
+    while at < T:
+        step = min(T - at, rng.randint(200, 800) if not nomodel else rng.randint(1000, 40000))
+        at += step
+        if rng.random() < 0.3:
+            ops.append(["next"])
+        ops.append(["until", at * unit, False] if rng.random() < 0.5 else ["for", step * unit, False])
+        if rng.random() < 0.3:
+            ops.append(["idjump", 2 ** rng.choice([16, 20, 32])])
+    ops.append(["until", T * unit, False])
+    c = {"cls": cls, "script": [[rng.randint(1, T), [["sched", "tick", 0, False, "H", 99, 0, []]]]] if cls == "ABM" else [], "fuel": 900, "ops": ops}
+    if nomodel:
+        c["nomodel"] = True
+    return c
 
 
 def _partition_case(rng, cls):
@@ -123,6 +148,14 @@ def gen_cases(rng, tier):
             _add_running(rng, c)          # a quarter of the histories: user code flips model.running
         cases.append(c)
     cases += list(_composition_cases(4 if tier == "quick" else 6, True))
+    # SCALE stream: id-counter jumps (2^8 .. 2^63) in front of ticks and same-instant events; runs of thousands of ticks
+    for gap in (_C14s.GAPS if tier == "quick" else _C14s.GAPS * 8):
+        cases.append(_C14s._idgap_case(rng, "ABM", gap))
+    for _ in range(2 if tier == "quick" else 40):
+        cases.append(_long_run_case(rng, rng.choice(["ABM", "ABM", "DEVS"]), rng.choice([1000, 1025, 2049, 2500])))
+    if tier != "quick":
+        for T in (4097, 65537, 70000):
+            cases.append(_long_run_case(rng, "ABM", T, nomodel=True))
     # user code that raises (also IndexError) in the middle of a run call: a run call that returns normally has stepped every tick
     from props import C14 as _C14
     for _ in range(40 if tier == "quick" else 1500):
@@ -137,6 +170,12 @@ def enumerate_cases(tier, broken=False):
     for i in range(300 if tier == "quick" else 2000):
         c = _partition_case(rng, rng.choice(["ABM", "ABM", "DEVS"]))
         yield _add_running(rng, c) if i % 2 else c
+    for gap in _C14s.GAPS:
+        for _ in range(6):
+            yield _C14s._idgap_case(rng, "ABM", gap)
+    for T in (1000, 1025, 2049, 4097, 65537):
+        yield _long_run_case(rng, "ABM", T, nomodel=True)
+        yield _long_run_case(rng, "DEVS", T, nomodel=True)
 
 
 RULE = ("histories = one ABMSimulator (65%) / DEVSimulator after setup, 0-6 events scheduled up front (with user code that schedules further events, "
